@@ -31,8 +31,8 @@ LEVEL = "translation_validation"
 RULE = (
     "G-cores programs (memref.copy / xdma dart.operation = dm, linalg.generic with and without library_call / dart.operation "
     "on snax_alu, snax_gemmx = compute, test.op markers / arith / alloc / subview / barriers = all; straight-line, nested "
-    "scf.for and scf.if (with else / with results), 18% with several blocks (cf.br, cf.cond_br); every op tagged verif.kind by "
-    "the generator) plus every filecheck function with copies / generics that executes on the machine; each pushed through the "
+    "scf.for and scf.if (with else / with results), 18% with several blocks (cf.br, cf.cond_br), 12% with a called helper "
+    "function that is dispatched too; every op tagged verif.kind by the generator) plus every filecheck function with copies / generics that executes on the machine; each pushed through the "
     "real dispatch-regions for two core counts out of {2,3,4,8} and through function-constant-pinning, executed for every core id "
     "and 2 runtime vectors. Non-trivial: >=1 dm and >=1 compute op at depth >=1, or adjacent dispatchable ops of the same kind "
     "with different parents; distinct by (skeleton, N)."
@@ -291,6 +291,8 @@ def corpus_cases(rng, limit=80):
     for fn in files:
         for ci, chunk in enumerate(split_file(os.path.join(root, fn))):
             if "memref.copy" not in chunk and "linalg.generic" not in chunk and "dart." not in chunk:
+                continue
+            if "snax_cluster_core_idx" in chunk:  # already dispatched: not an original program
                 continue
             body = "\n".join(l for l in chunk.splitlines() if not l.lstrip().startswith("//"))
             try:
